@@ -45,6 +45,7 @@ INF == 1000000
 \* console frames (payloads per the vendor documents; read by the reference wire layer)
 Name16(s) == s \o [i \in 1..(16 - Len(s)) |-> 0]
 P4 == [version |-> <<31, <<255, 48, 0, 5, 49, 46, 51, 46, 51>>>>,
+       version2 |-> <<31, <<255, 48, 1, 5, 49, 46, 51, 46, 51>>>>,      \* the same versions, an update has become available
        names |-> <<31, <<255, 18, 0, 76, 105, 118, 105, 110, 103, 0, 0>>>>,
        ability |-> <<31, <<255, 17, 0, 24>> \o Name16(<<85, 78, 73, 84>>) \o <<0, 1, 23, 29, 17, 31, 1, 0>>>>,
        acstatus |-> <<45, <<64, 66, 26, 0, 97, 128, 0, 0>>>>,
@@ -53,6 +54,7 @@ P4 == [version |-> <<31, <<255, 48, 0, 5, 49, 46, 51, 46, 51>>>>,
        zonestatus |-> <<43, <<64, 100, 26, 128, 97, 128>>>>,
        zonestatus2 |-> <<43, <<0, 50, 26, 128, 97, 128>>>>]
 P5 == [version |-> <<31, <<255, 48, 0, 5, 49, 46, 48, 46, 49>>>>,
+       version2 |-> <<31, <<255, 48, 1, 5, 49, 46, 48, 46, 49>>>>,
        names |-> <<31, <<255, 19, 0, 6, 76, 105, 118, 105, 110, 103>>>>,
        ability |-> <<31, <<255, 17, 0, 24>> \o Name16(<<85, 78, 73, 84>>) \o <<0, 1, 23, 29, 16, 31, 18, 31>>>>,
        acstatus |-> <<192, <<35, 0, 0, 0, 0, 10, 0, 1, 16, 18, 120, 0, 2, 218, 0, 0, 0, 0>>>>,
@@ -141,7 +143,7 @@ SetToSeqI(X) == LET RECURSIVE F(_)
 SubTarget(w) == CASE w = "A" -> "ac:0" [] w = "S" -> "ac:0" [] w = "Z" -> "zone:0" [] OTHER -> "airtouch"
 SubKind(w)   == CASE w = "A" -> "ac" [] w = "S" -> "ac_state" [] w = "Z" -> "zone" [] OTHER -> "airtouch"
 Part(f) == CASE f \in {"acstatus", "acstatus2"} -> "objAc" [] f \in {"zonestatus", "zonestatus2"} -> "objZone"
-             [] f = "timer" -> "objTimer" [] f = "version" -> "objVer" [] OTHER -> "none"
+             [] f = "timer" -> "objTimer" [] f \in {"version", "version2"} -> "objVer" [] OTHER -> "none"
 Changes(s, f) == Part(f) # "none" /\ s[Part(f)] # f
 Heard(s, f) == IF ~Changes(s, f) THEN {}
                ELSE CASE Part(f) = "objAc" -> s.subs \cap {"A", "S"}
@@ -196,7 +198,7 @@ Seg(s, t) ==
         ELSE LET f == Head(s.inbox)
                  s1 == [s EXCEPT !.inbox = Tail(@), !.task[t].arg = f]
                  \* the heartbeat manager's own subscriber: any console-version message is a response
-                 s2 == IF f = "version" /\ s.hbSub THEN [s1 EXCEPT !.resp = TRUE] ELSE s1
+                 s2 == IF f \in {"version", "version2"} /\ s.hbSub THEN [s1 EXCEPT !.resp = TRUE] ELSE s1
                  dv == <<Ev(s, [e |-> "deliver", t |-> 0, rd |-> RxAlts(f)[1]])>>   \* the socket hands the frame to its subscribers
                  k  == s.state - 1     \* handshake request outstanding (1..6) when state in 2..7
                  answers == s.state \in 2..7 /\ (f = HSK[k] \/ (f = "zonestatus2" /\ k = 6) \/ (f = "acstatus2" /\ k = 4))
@@ -204,7 +206,7 @@ Seg(s, t) ==
                 THEN IF k \in {1, 2, 3}
                      THEN {R(Cont(SetPc([Hold(s2, f) EXCEPT !.state = @ + 1], t, "R0"), t), dv \o Cbs(s2, f) \o Send(s2, HSK[k + 1]))}
                      ELSE { R(r, dv \o Cbs(s2, f)) : r \in NotifyAwait(Hold(s2, f), t, "Rh") }    \* await self._process_*_message(...)
-                ELSE IF s.state = 8 /\ f \in {"acstatus", "acstatus2", "timer", "zonestatus", "zonestatus2", "version"}
+                ELSE IF s.state = 8 /\ f \in {"acstatus", "acstatus2", "timer", "zonestatus", "zonestatus2", "version", "version2"}
                 THEN LET s3 == IF PROTO = "at4" /\ f \in {"zonestatus", "zonestatus2"} THEN [s2 EXCEPT !.gresp = TRUE] ELSE s2
                      IN { R(r, dv \o Cbs(s3, f)) : r \in NotifyAwait(Hold(s3, f), t, "R0") }
                 ELSE {R(Cont(SetPc(s2, t, "R0"), t), dv)}
@@ -403,11 +405,12 @@ Checkpoint ==
   /\ Quiet(S) /\ S.nenv > 0
   /\ EnvStep(S, <<Ev(S, [e |-> "quiesce", t |-> 0])>>, [op |-> "quiesce"])
 
-Kinds == {"version", "names", "ability", "acstatus", "acstatus2", "timer", "zonestatus", "zonestatus2"}
+Kinds == {"version", "version2", "names", "ability", "acstatus", "acstatus2", "timer", "zonestatus", "zonestatus2"}
 
 \* the next answer of the handshake, or (initialised) any status / version frame; foreign frames at any time
 Useful(kind) == \/ (S.state \in 2..7 /\ kind = HSK[S.state - 1])
                 \/ (S.state = 8 /\ kind \in {"acstatus2", "zonestatus2", "version", "acstatus", "zonestatus"})
+                \/ (S.state = 8 /\ Subs /\ kind = "version2")
                 \/ (S.state \in 2..7 /\ kind \in {"acstatus2", "zonestatus2"} /\ S.state < 5)    \* unsolicited, early
 
 Env == IF Warmup
